@@ -284,7 +284,7 @@ def run_extraction(ex: Extraction, report):
                 fs = k + 1
                 fe = fe - 1
         elif ex.args.get("end_stmt"):
-            fe = _stmt_end(msk, fe)
+            fe = _stmt_end(msk, o + me.start())
         t = SrcText.from_file_slice(src, fs, fe)
         rec["item"] = "fragment of fn %s" % ex.args.get("fn")
         rec["lines"] = [src.count("\n", 0, fs) + 1, src.count("\n", 0, fe) + 1]
